@@ -116,7 +116,17 @@ func (v regView) keysInState(w *World, ctx sdk.Context, id uint64) []uint64 {
 	return out
 }
 
+// params: the module parameters in force - those of the last adopted update (genesis, or a
+// proposal that passed and executed as a whole), as the models follow them. What the node answers
+// when asked (queried) is itself under test (C16) and is used only when there is no model.
 func (v regView) params(w *World, ctx sdk.Context) (RegParams, error) {
+	if w.M != nil && v.model(w) != nil {
+		return v.model(w).P, nil
+	}
+	return v.queried(w, ctx)
+}
+
+func (v regView) queried(w *World, ctx sdk.Context) (RegParams, error) {
 	g := sdk.WrapSDKContext(ctx)
 	if v.kind == "wrk" {
 		r, err := w.Ref.App.WrkchainKeeper.Params(g, &wrkchaintypes.QueryParamsRequest{})
